@@ -73,6 +73,16 @@ Theorem C09g_link_str_to_int :
 Proof. exact link_str_to_int. Qed.
 Print Assumptions C09g_link_str_to_int.
 
+Theorem C09g_link_str_from_int :
+  forall x : Z, (x <= 2147483647)%Z -> option_map w (M_fn_str_from_int x) = str_from_int x.
+Proof. exact link_str_from_int. Qed.
+Print Assumptions C09g_link_str_from_int.
+
+Theorem C09g_link_from_String :
+  forall t : list N, option_map w (M_SmtString_from_String t) = made (from_str t).
+Proof. exact link_from_String. Qed.
+Print Assumptions C09g_link_from_String.
+
 (* ---- the C09 statements on the translated code ---- *)
 
 Theorem C09g_lt_lex :
@@ -155,11 +165,36 @@ Theorem C09g_is_digit_spec :
 Proof. exact g_is_digit_spec. Qed.
 Print Assumptions C09g_is_digit_spec.
 
+Theorem C09g_from_int_spec :
+  forall x : Z,
+       (x <= I32MAX)%Z ->
+       exists s : SmtString,
+         M_fn_str_from_int x = Some s /\
+         ((0 <= x)%Z -> numeral (w s) /\ dec_value (w s) = x) /\ ((x < 0)%Z -> w s = []).
+Proof. exact g_from_int_spec. Qed.
+Print Assumptions C09g_from_int_spec.
+
+Theorem C09g_to_int_from_int :
+  forall x : Z,
+       (0 <= x <= I32MAX)%Z -> (do s <- M_fn_str_from_int x; M_fn_str_to_int s) = Some x.
+Proof. exact g_to_int_from_int. Qed.
+Print Assumptions C09g_to_int_from_int.
+
+Theorem C09g_from_int_unique :
+  forall (x : Z) (s : SmtString),
+       (0 <= x <= I32MAX)%Z ->
+       numeral (w s) -> dec_value (w s) = x -> option_map w (M_fn_str_from_int x) = Some (w s).
+Proof. exact g_from_int_unique. Qed.
+Print Assumptions C09g_from_int_unique.
+
 Theorem C09g_example :
   M_fn_str_lt 3 {| SmtString_s := [97; 98] |} {| SmtString_s := [97; 99] |} = Some true /\
        M_fn_str_to_int {| SmtString_s := [52; 50] |} = Some 42%Z /\
        M_fn_str_to_int {| SmtString_s := [53; 48; 48; 48; 48; 48; 48; 48; 48; 48] |} = None /\
        M_fn_str_to_int {| SmtString_s := [57; 57; 57; 57; 57; 57; 57; 57; 57; 57; 57; 97] |} =
-       Some (-1)%Z /\ M_fn_str_to_code {| SmtString_s := [196607] |} = Some 196607%Z.
+       Some (-1)%Z /\
+       M_fn_str_to_code {| SmtString_s := [196607] |} = Some 196607%Z /\
+       option_map w (M_fn_str_from_int 1907) = Some [49; 57; 48; 55] /\
+       option_map w (M_fn_str_from_int (-3)) = Some [].
 Proof. exact g_example. Qed.
 Print Assumptions C09g_example.
